@@ -15,7 +15,7 @@ RULE = ("three-phase networks dimensioned so constraints bind in a good share of
         "on/off x {no estimator, SimpleRampdown, stub estimator} x continuous_inc; non-trivial = a call with a binding "
         "constraint (some session got less than its own bound) and >=2 active sessions; distinct = history signature + options")
 PROBES = ["binding_call", "nearly_finished_session", "estimator_bound_binding", "uninterrupted_min_applied", "crossed_session_ids",
-          "resumed", "rr_call", "greedy_call", "finite_rate_station", "removed_finished_session", "constraint_free", "call_after_reconfig", "knife_edge_world", "knife_edge_sum_rejected", "sorted_recompute_interval_not_1", "user_min_rate_interface", "user_min_rate_lower_bound_refused"]
+          "resumed", "rr_call", "greedy_call", "finite_rate_station", "removed_finished_session", "constraint_free", "call_after_reconfig", "knife_edge_world", "knife_edge_sum_rejected", "sorted_recompute_interval_not_1"]
 FAULT_DIMENSION = ("crash + rerun (estimator state carried across a resume); operator changes a constraint limit between two "
                    "periods (update_constraint); no fault alters the algorithm")
 ASSUMPTIONS = ["network tolerances >= the algorithms' hard-wired 1e-5 / 1e-7 (the algorithm-side check does not read the network's)",
@@ -58,13 +58,6 @@ def gen(rs, tier):
                     s_["energy"] = round(max(s_["energy"], _mp(st[s_["station"]]["evse"]) * st[s_["station"]]["voltage"] / 1000.0
                                              * sc["sim"]["period"] / 60.0 * (s_["departure"] - s_["arrival"]) * 1.2), 4)
                     s_["battery"]["capacity"] = max(s_["battery"]["capacity"], s_["battery"]["init"] + s_["energy"] * 1.5)
-    rm_ = world.sub(rs, "iface_min_rate")
-    if rm_.random() < 0.08 and sc["party"].get("estimator", "none") == "none" and not sc["party"].get("uninterrupted"):
-        # the simulator is built with a user Interface subclass that hands the algorithm sessions with a positive minimum rate
-        # (a nearly finished session then has less demand left than its minimum). A lower-bound schedule that is infeasible is
-        # refused by the algorithm with ValueError: legitimate, the run is not judged further.
-        sc["sim"]["iface_min_rate"] = rm_.choice([6, 6, 3.5, 8])
-        sc["sim"].pop("built_with_max_recompute", None)
     if sc["party"]["kind"] == "rr":
         # keep the discretised continuous grids small (speed)
         inc = sc["party"].get("continuous_inc", 1)
@@ -96,15 +89,7 @@ def check(sc):
     tr = driver.run_world(sc, observe=0, setup=setup)
     p = sc["party"]
     out = base_outcome(tr, extra_sig=[p["kind"], p.get("sort"), p.get("estimator"), p.get("uninterrupted"), p.get("continuous_inc")])
-    if sc["sim"].get("iface_min_rate") and isinstance(tr.exc, ValueError) and "lower bound is not feasible" in str(tr.exc):
-        out.probe("user_min_rate_lower_bound_refused")
-        ok = False
-        out.aborted = True
-        out.abort_reason = "lower bound infeasible (user minimum rates)"
-    else:
-        ok = completion(tr, out, "C07", required=True)
-    if sc["sim"].get("iface_min_rate"):
-        out.probe("user_min_rate_interface")
+    ok = completion(tr, out, "C07", required=True)
     ids = [s["id"] for s in sc["network"]["stations"]]
     st = {s["id"]: s for s in sc["network"]["stations"]}
     phases = [s["phase"] for s in sc["network"]["stations"]]
